@@ -38,7 +38,8 @@ tvars == <<mask, deps, heap, blocks, call, l, skip, proj, issued, lastAuto>>
 
 Ev == TraceLog[l]
 
-NoAuto == [str |-> <<0 - 1>>, coin |-> 0, fail |-> 0, mask |-> 0, lang |-> 0, st |-> 0]
+\* x: the last explicit decoding per language (language number -> [str, coin, fail, mask, st])
+NoAuto == [str |-> <<0 - 1>>, coin |-> 0, fail |-> 0, mask |-> 0, lang |-> 0, st |-> 0, x |-> <<>>]
 
 -----------------------------------------------------------------------------
 (* verdict on a sequence of conditions                                      *)
@@ -253,18 +254,30 @@ RoundTripConds(r, exp) ==
                          \/ (call.op = "Decode" /\ r.st = StMultLang /\ exp.st = StMultLang)) >>
     ELSE <<>>
 
+\* (the other direction: the one language that recognises all tokens was tried explicitly before, on the same
+\* string, coin, mask and allocator behaviour: automatic decoding must report exactly that outcome)
+AgreeWithExplicit(r, e) ==
+    IF e.str = call.a.str /\ e.coin = call.a.coin /\ e.fail = call.a.fail /\ e.mask = mask
+    THEN << Cond("automatic-decoding-agrees-with-explicit", {"C09", "C13"}, r.st = e.st) >>
+    ELSE <<>>
+
 \* C09 as a relation between the two decoders: on the same string, coin, enabled mask and allocator behaviour,
 \* explicit decoding with the one language that recognises all tokens gives exactly the automatic outcome
-AgreementConds(r) ==
+AgreementConds(r, exp) ==
     IF call.op = "DecodeX" /\ lastAuto.lang # 0 /\ lastAuto.lang = call.a.lang /\ lastAuto.str = call.a.str
           /\ lastAuto.coin = call.a.coin /\ lastAuto.fail = call.a.fail /\ lastAuto.mask = mask
     THEN << Cond("explicit-decoding-agrees-with-automatic", {"C09", "C13"}, r.st = lastAuto.st) >>
+    ELSE IF call.op = "Decode" /\ exp.lang # 0 /\ exp.lang \in DOMAIN lastAuto.x
+    THEN AgreeWithExplicit(r, lastAuto.x[exp.lang])
     ELSE <<>>
 
 LastAutoAfter(r, exp) ==
     IF call.op = "Decode"
     THEN [str |-> call.a.str, coin |-> call.a.coin, fail |-> call.a.fail, mask |-> mask,
-          lang |-> (IF r.st \in {StNumWords, StLang, StMultLang} THEN 0 ELSE exp.lang), st |-> r.st]
+          lang |-> (IF r.st \in {StNumWords, StLang, StMultLang} THEN 0 ELSE exp.lang), st |-> r.st, x |-> lastAuto.x]
+    ELSE IF call.op = "DecodeX"
+    THEN [lastAuto EXCEPT !.x = (call.a.lang :> [str |-> call.a.str, coin |-> call.a.coin, fail |-> call.a.fail,
+                                                  mask |-> mask, st |-> r.st]) @@ lastAuto.x]
     ELSE lastAuto
 
 IssuedAfter(r) ==
@@ -280,7 +293,7 @@ TRetLive(r, nh, t, exp) ==
               /\ proj' = [h \in DOMAIN nh |-> IF h \in DOMAIN proj /\ h # t THEN proj[h]
                                                ELSE Projection(nh[h].seed)])
 
-TRetEval(r, ev) == OnVerdict(Verdict(ev.conds \o RoundTripConds(r, ev.exp) \o AgreementConds(r)),
+TRetEval(r, ev) == OnVerdict(Verdict(ev.conds \o RoundTripConds(r, ev.exp) \o AgreementConds(r, ev.exp)),
                              TRetLive(r, ev.heap, TargetOf(r), ev.exp))
 
 TRet ==
@@ -318,6 +331,13 @@ TFind ==
     /\ Ev.e = "Find"
     /\ OnVerdict(Verdict(FindConds(LangOf(Ev.lang), Ev, Find(LangOf(Ev.lang), Ev.tok))), Advance /\ Same)
 
+\* end of a mass sweep of pseudo-random tokens: the accepted ones were logged as Find events before it
+TSweep ==
+    /\ ~skip
+    /\ Ev.e = "Sweep"
+    /\ OnVerdict(Verdict(<< Cond("sweep-counts-are-consistent", {"HARNESS"}, Ev.n >= 0 /\ Ev.hits >= 0 /\ Ev.hits <= Ev.n) >>),
+                 Advance /\ Same)
+
 TMul2 ==
     /\ ~skip
     /\ Ev.e = "Mul2"
@@ -338,7 +358,7 @@ TraceInit ==
 TraceNext ==
     /\ l <= N
     /\ \/ TStart \/ TReset \/ TEnd \/ TSkip \/ TFault \/ TBegin \/ TDep \/ TRet
-       \/ TWords \/ TFind \/ TMul2 \/ TEval \/ TStr
+       \/ TWords \/ TFind \/ TSweep \/ TMul2 \/ TEval \/ TStr
 
 TraceSpec == TraceInit /\ [][TraceNext]_tvars
 
